@@ -15,6 +15,32 @@ def _wd_c03(where):
 ENGINE_ON = {"C01", "C02", "C03", "C04", "C08", "C19"}
 
 
+def _c09_post(results):
+    """the configured probability of a high-frequency phase after a batch, judged over all runs of the check:
+    a binomial count with a 7-sigma bound (false-alarm probability below 1e-11 per rate)."""
+    import math
+    agg = {}
+    for r in results:
+        st = r.get("stats", {})
+        for k, v in st.items():
+            if k.startswith("hft_opportunities@"):
+                rate = k.split("@", 1)[1]
+                a = agg.setdefault(rate, [0, 0, []])
+                a[0] += v
+                a[1] += st.get("hft_phases@" + rate, 0)
+                a[2].append([r["batch"], r["idx"]])
+    out = []
+    for rate, (n, k, runs) in sorted(agg.items()):
+        p = float(rate)
+        if n < 200:
+            continue
+        bound = 7.0 * math.sqrt(n * p * (1 - p)) + 1.0
+        if abs(k - n * p) > bound:
+            out.append({"kind": "hft_phase_frequency", "runs": runs,
+                        "detail": {"configured_rate": p, "batches": n, "followed_by_phase": k, "expected": n * p, "bound": bound}})
+    return out
+
+
 def _c20_exc(err, scn, res):
     """an exception inside an agent counts only if every market is in an admissible state (prices > 0)."""
     mon = res.get("_mon")
@@ -153,6 +179,7 @@ def registry() -> Dict[str, Check]:
         rule="Driver-A runs over session lists with all flag combinations, caps incl. 0, rates incl. 0 and 1, "
              "scripted normal and HFT agents, built-in events; non-trivial = a cap was reached.",
         need_probes=["normal_cap_reached", "hft_cap_reached", "hft_coin_yes", "hft_coin_no"],
+        post=_c09_post,
     )
     reg["C10"] = Check(
         "C10", {"C10", "C04"},
